@@ -13,7 +13,7 @@ from . import common
 PROP = "C14"
 LEANCHECK_MODULES = ["Ivy.L2.Lockset", "Ivy.Generated.AccessTable", "Ivy.Props.C14"]
 TSAN_FLAGS = ["-O1", "-g", "-fsanitize=thread"]
-PROGS = ["event", "raw", "work", "thread", "signal", "wait"]
+PROGS = ["event", "raw", "work", "thread", "signal", "wait", "inotify"]
 NO_EPOLL = "epoll-timerfd epoll"          # IV_EXCLUDE_POLL_METHOD value that forces ppoll (raw-event transport for iv_event)
 MAX_PARALLEL = 5
 RULE = ("free-running ThreadSanitizer programs (real threads/kernel): iv_event ping-pong with (un)registration churn, raw events, "
@@ -95,7 +95,7 @@ def scenarios(tier, seed):
         for excl in ("", NO_EPOLL):
             fam = "ppoll" if excl else "epoll"
             nt = {"event": 2 + s % 3, "raw": 2 + (s + 1) % 3, "work": 1 + s % 2 + (1 if tier != "quick" else 0),
-                  "thread": 3 + s % 3, "signal": 2 + s % 3, "wait": 2 + s % 2}
+                  "thread": 3 + s % 3, "signal": 2 + s % 3, "wait": 2 + s % 2, "inotify": 2 + s % 2}
             for p in PROGS:
                 out.append((f"{p}-{fam}-s{s}", p, s, nt[p], ms, 0, excl))
         # the debug helper iv_thread_list_children() called by the parent while children start: its own scenario
@@ -296,7 +296,7 @@ def excerpt(rep):
 
 
 STAT_KEYS = {"event": ["posts"], "raw": ["posts"], "work": ["continuations", "completions"], "thread": ["created"],
-             "signal": ["handled"], "wait": ["reaped"]}
+             "signal": ["handled"], "wait": ["reaped"], "inotify": ["events"]}
 
 
 def stats_of(out):
